@@ -64,7 +64,10 @@ TStep == /\ E.ev = "law_step"
                    \/ CASE law = "affine" -> Near(Fx(E.y2), FxAdd(FxMul(a, Fx(E.y1)), b), FxMulInt(tol, 2))
                         [] law = "range"  -> FxGe(Fx(E.y1), FxSub(lo2, tol)) /\ FxLe(Fx(E.y1), FxAdd(hi2, tol))
                         [] law = "super"  -> Near(Fx(E.y3), FxAdd(Fx(E.y1), Fx(E.y2)), FxMulInt(tol, 3))
-                        [] law = "const"  -> Near(Fx(E.y1), x, Allow(4 * n + 16, 0, 1, FxAbs(x)))
+                        \* (a volume-weighted average of a constant price is a quotient of two running sums of inexact products: its
+                        \* numerator drifts with t and is divided by a total volume that may be 50 times smaller than the largest one)
+                        [] law = "const"  -> IF kind = "VWMA" THEN Near(Fx(E.y1), x, Allow(4 * n + 16, 8, t + 1, FxMulInt(FxAbs(x), 64)))
+                                             ELSE Near(Fx(E.y1), x, Allow(4 * n + 16, 0, 1, FxAbs(x)))
                 /\ ema' = IF isV THEN [vs |-> q.st, mute |-> mut] ELSE ema
                 /\ M' = m2 /\ lo' = lo2 /\ hi' = hi2
          /\ t' = t + 1 /\ UNCHANGED <<law, kind, n, a, b, ws>>
